@@ -426,4 +426,54 @@ theorem run_aug (prm : Params K) (ip : Vec K → Vec K → K) (sqrt : K → K) (
     rw [outerG_fst] at this
     exact this.1
 
+/-! ### the inherited pointers (`always_reset = false`) in closed form -/
+
+theorem lastWrite_drop {α : Type} (n : Nat) : ∀ (log : List (Nat × α)) (s : Nat)
+    (h : ∀ j e', j < n → log[j]? = some e' → e'.1 ≠ s), lastWrite log s = lastWrite (log.drop n) s := by
+  induction n with
+  | zero => intro log s _; rfl
+  | succ k ih =>
+    intro log s h
+    cases log with
+    | nil => rfl
+    | cons a l =>
+      have ha : s ≠ a.1 := fun hh => h 0 a (Nat.succ_pos k) rfl hh.symm
+      show lastWrite (a :: l) s = lastWrite (l.drop k) s
+      have hu : lastWrite (a :: l) s = if s = a.1 then some a.2 else lastWrite l s := rfl
+      rw [hu, if_neg ha]
+      exact ih l s (fun j e' hj he' => h (j + 1) e' (by omega) (by simpa using he'))
+
+/-- an INHERITED pointer `outer_v[size-1-i]`, `n_outer ≤ i`, refers to the slot `s` its correction was written to by an
+earlier call; if `s < n_outer` the running call has overwritten the slot with its own correction number `s` (counted
+from `0`), which is the `(n_outer-1-s)`-th newest entry of the log; otherwise the slot holds what the inherited log
+says -/
+theorem aug_inherited {cap n : Nat} {w : Work K} {log log0 : List (Nat × Vec K)} (h : Aug cap w log)
+    (hc : InCall cap n log log0) (i : Nat) (e : Nat × Vec K) (he : log[i]? = some e) (hi : n ≤ i) (hic : i < cap) :
+    w.ov.get cap (w.ov.size - 1 - i) = e.1 ∧
+    (e.1 < n → ∃ e', log[n - 1 - e.1]? = some e' ∧ w.odata.get (w.ov.get cap (w.ov.size - 1 - i)) = e'.2) ∧
+    (n ≤ e.1 → lastWrite log0 e.1 = some (w.odata.get (w.ov.get cap (w.ov.size - 1 - i)))) := by
+  obtain ⟨_, h2, h3⟩ := h.read i e he hic
+  refine ⟨h2, ?_, ?_⟩
+  · intro hs
+    have hj : n - 1 - e.1 < log.length := by have := hc.1; omega
+    refine ⟨log[n - 1 - e.1], List.getElem?_eq_getElem hj, ?_⟩
+    have hslot := hc.2.2 (n - 1 - e.1) (by omega)
+    rw [List.getElem?_eq_getElem hj] at hslot
+    simp only [Option.map_some, Option.some.injEq] at hslot
+    have e1 : n - 1 - (n - 1 - e.1) = e.1 := by omega
+    rw [e1, Nat.mod_eq_of_lt (by omega)] at hslot
+    have hl := hc.lastWrite_recent (n - 1 - e.1) log[n - 1 - e.1] (by omega) (by omega) (List.getElem?_eq_getElem hj)
+    rw [hslot, h3] at hl
+    exact Option.some.inj hl
+  · intro hs
+    rw [← h3, ← hc.2.1]
+    symm
+    apply lastWrite_drop
+    intro j e' hj he' heq
+    have hslot := hc.2.2 j hj
+    rw [he'] at hslot
+    simp only [Option.map_some, Option.some.injEq] at hslot
+    rw [Nat.mod_eq_of_lt (by omega)] at hslot
+    omega
+
 end Amgcl.Solver.LGMRES
